@@ -173,6 +173,7 @@ def check_property(prop, tier='quick', seed=0, only=None, verbose=False):
     undecided = []
     engine_errors = []
     known_hits = []
+    reported = {}
 
     if native_err:
         engine_errors.append('native driver: ' + native_err)
@@ -222,9 +223,13 @@ def check_property(prop, tier='quick', seed=0, only=None, verbose=False):
                     if kf:
                         known_hits.append((kf, obid))
                         continue
+                    violations += 1
+                    if obid in reported:
+                        reported[obid] += 1
+                        continue
+                    reported[obid] = 1
                     json.dump(payload, open(replay_path, 'w'), indent=1, default=str)
                     lines.append('VIOLATION property=%s replay=%s' % (prop, replay_path))
-                    violations += 1
                     print('  failed obligation %s: %s\n  input: %s\n  native: raised=%s result=%s' % (
                         obid, rec['expr'][:300], json.dumps(rec['values'])[:600], run.get('raised'), run.get('result')))
                 elif confirmed is False:
@@ -280,6 +285,9 @@ def check_property(prop, tier='quick', seed=0, only=None, verbose=False):
         exit_code = 2
     for l in lines:
         print(l)
+    for obid, n in reported.items():
+        if n > 1:
+            print('  (%s fails on %d paths; first one reported)' % (obid, n))
     for m in engine_errors:
         print('ENGINE-ERROR property=%s %s' % (prop, m))
     for m in undecided:
